@@ -164,3 +164,61 @@ Lemma addr_step : forall base stride k,
   (addr base stride (S k) = addr base stride k + stride)%Z /\
   (addr base stride k = addr base stride (S k) - stride)%Z.
 Proof. intros. unfold addr. lia. Qed.
+
+(* ---------------------------------------------------------------- median *)
+Lemma floor_unique : forall (q : Q) (k : Z),
+  (inject_Z k <= q)%Q -> (q < inject_Z k + 1)%Q -> Qfloor q = k.
+Proof.
+  intros q k H1 H2.
+  pose proof (Qfloor_le q) as A. pose proof (Qlt_floor q) as B. rewrite inject_Z_plus in B.
+  change (inject_Z 1) with 1%Q in B.
+  assert (C1 : (Qfloor q < k + 1)%Z).
+  { rewrite Zlt_Qlt. rewrite inject_Z_plus. change (inject_Z 1) with 1%Q. lra. }
+  assert (C2 : (k < Qfloor q + 1)%Z).
+  { rewrite Zlt_Qlt. rewrite inject_Z_plus. change (inject_Z 1) with 1%Q. lra. }
+  lia.
+Qed.
+
+(* median = quantile(1/2, interp): the mean of the order statistics of ranks
+   (n-1) div 2 and n div 2 (NumPy's definition); they coincide for odd n *)
+Lemma median_ok : forall F x, 2 <= length x -> length x <= F ->
+  let N := Z.of_nat (length x) in
+  exists x' lo hi q, quantile F x (1 # 2) true = Ok (x', QVal q) /\ Permutation x' x /\
+    is_kth x (Z.to_nat ((N - 1) / 2)) lo /\ is_kth x (Z.to_nat (N / 2)) hi /\
+    (q == (inject_Z lo + inject_Z hi) * (1 # 2))%Q.
+Proof.
+  intros F x Hn HF N.
+  assert (HN : (2 <= N)%Z) by (unfold N; lia).
+  pose proof (Z.div_mod (N - 1) 2 ltac:(lia)) as Hr.
+  pose proof (Z.mod_pos_bound (N - 1) 2 ltac:(lia)) as Hb.
+  remember ((N - 1) / 2)%Z as k eqn:Ek. remember ((N - 1) mod 2)%Z as rr eqn:Err.
+  assert (Hk : (0 <= k)%Z) by lia.
+  rewrite quantile_in_range by lra. fold N.
+  remember ((1 # 2) * inject_Z (N - 1))%Q as pp eqn:Dpp.
+  destruct (ratio_scale (1 # 2) (N - 1) ltac:(lra) ltac:(lra) ltac:(lia)) as [A B]. rewrite <- Dpp in A, B.
+  assert (Epp : (pp == inject_Z k + (1 # 2) * inject_Z rr)%Q).
+  { rewrite Dpp. rewrite Hr. rewrite inject_Z_plus, inject_Z_mult. change (inject_Z 2) with 2%Q. lra. }
+  assert (Crr : rr = 0%Z \/ rr = 1%Z) by lia.
+  assert (Efl : Qfloor pp = k).
+  { apply floor_unique; destruct Crr as [-> | ->]; change (inject_Z 0) with 0%Q in *;
+      change (inject_Z 1) with 1%Q in *; lra. }
+  pose proof (quantile_pp_interp F x pp Hn HF A B) as H. cbv zeta in H. fold N in H.
+  rewrite Efl in H.
+  destruct H as (_ & _ & _ & [(Hw & x' & a & R & Perm & K)|(Hw & Hp1 & x' & am & aM & q & R & Perm & Hq & Ka & Kb)]).
+  - (* integral rank: n odd *)
+    assert (Hrr : rr = 0%Z).
+    { destruct Crr as [E|E]; [exact E|]. rewrite E in Epp. change (inject_Z 1) with 1%Q in Epp. lra. }
+    clear Err. subst rr.
+    assert (EN2 : (N / 2)%Z = k) by (symmetry; apply (Z.div_unique N 2 k 1); lia).
+    exists x', a, a, (inject_Z a). split; [exact R|]. split; [exact Perm|].
+    split; [exact K|]. split; [rewrite EN2; exact K|lra].
+  - assert (Hrr : rr = 1%Z).
+    { destruct Crr as [E|E]; [|exact E]. rewrite E in Epp. change (inject_Z 0) with 0%Q in Epp. lra. }
+    clear Err. subst rr.
+    assert (EN2 : (N / 2)%Z = (k + 1)%Z) by (symmetry; apply (Z.div_unique N 2 (k + 1) 0); lia).
+    assert (Ew : (pp - inject_Z k == 1 # 2)%Q) by (change (inject_Z 1) with 1%Q in Epp; lra).
+    exists x', am, aM, q. split; [exact R|]. split; [exact Perm|].
+    split; [exact Ka|]. split.
+    + rewrite EN2. replace (Z.to_nat (k + 1)) with (S (Z.to_nat k)) by lia. exact Kb.
+    + rewrite Hq. rewrite Ew. lra.
+Qed.
